@@ -84,6 +84,290 @@ theorem put_atmost_le (fuel : Nat) (s : Snk) (d : List Octet) :
   obtain ⟨k, hk, hadv, hok, _⟩ := once_put_spec fuel s d
   exact ⟨k, hk, hadv.1, hok⟩
 
+/-! #### plumbing, per octet (drivers that never answer 0 – see DESIGN.md) -/
+
+/-- what all plumbing variants guarantee when they stop: the sink has received `d`, the next octets of
+    the stream in order (a prefix of the stream), and at most `lost` further octets were taken from the
+    source without being delivered -/
+abbrev Delivered := @Moved
+
+private theorem nz_src {src src' : Src} {snk snk' : Snk} {d lost : List Octet} (h : Moved src snk src' snk' d lost)
+    (hs : NoZero src.script) : NoZero src'.script := NoZero.suffix h.1.2.2.1 hs
+private theorem nz_snk {src src' : Src} {snk snk' : Snk} {d lost : List Octet} (h : Moved src snk src' snk' d lost)
+    (hk : NoZero snk.script) : NoZero snk'.script := NoZero.suffix h.2.2.1 hk
+
+/-- `sts_n_cbc`: success = exactly n octets moved, nothing lost; failure = a prefix moved -/
+theorem sts_n_cbc_spec : ∀ (n : Nat) (src : Src) (snk : Snk) (total : Nat),
+    NoZero src.script → NoZero snk.script →
+    (∀ m, (sts_n_cbc n src snk total).1 = .ok m → m = total ∧
+      ∃ d, d.length = n ∧ Moved src snk (sts_n_cbc n src snk total).2.1 (sts_n_cbc n src snk total).2.2 d []) ∧
+    (∀ e, (sts_n_cbc n src snk total).1 = .err e →
+      ∃ d lost, lost.length ≤ 1 ∧ Moved src snk (sts_n_cbc n src snk total).2.1 (sts_n_cbc n src snk total).2.2 d lost) ∧
+    (sts_n_cbc n src snk total).1 ≠ .diverge := by
+  intro n
+  induction n with
+  | zero => intro src snk total _ _; exact ⟨fun m hm => ⟨by simpa [sts_n_cbc] using hm.symm, [], rfl, Moved.refl src snk⟩, by simp [sts_n_cbc], by simp [sts_n_cbc]⟩
+  | succ n ih =>
+    intro src snk total hs hk
+    obtain ⟨c1, c2, c3⟩ := sts_cbc_spec src snk hs hk
+    simp only [sts_n_cbc]
+    rcases hc : sts_cbc src snk with ⟨rc, src1, snk1⟩
+    rw [hc] at c1 c2 c3
+    simp only at c1 c2 c3
+    cases rc with
+    | diverge => exact absurd rfl c3
+    | err e =>
+      obtain ⟨lost, hl, hm⟩ := c2 e rfl
+      exact ⟨by simp, fun e' _ => ⟨[], lost, hl, hm⟩, by simp⟩
+    | ok k =>
+      obtain ⟨_, o, hm⟩ := c1 k rfl
+      obtain ⟨i1, i2, i3⟩ := ih src1 snk1 total (nz_src hm hs) (nz_snk hm hk)
+      refine ⟨?_, ?_, i3⟩
+      · intro m hmm
+        obtain ⟨f1, d, f2, f3⟩ := i1 m hmm
+        exact ⟨f1, o :: d, by simp [f2], by simpa using Moved.trans hm f3⟩
+      · intro e he
+        obtain ⟨d, lost, f1, f2⟩ := i2 e he
+        exact ⟨o :: d, lost, f1, by simpa using Moved.trans hm f2⟩
+
+/-- `sts_n` (endpoints without buffer extension): same guarantee -/
+theorem sts_n_spec : ∀ (fuel : Nat) (src : Src) (snk : Snk) (rest total : Nat),
+    NoZero src.script → NoZero snk.script →
+    (∀ m, (sts_n fuel src snk rest total).1 = .ok m → m = total ∧
+      ∃ d, d.length = rest ∧ Moved src snk (sts_n fuel src snk rest total).2.1 (sts_n fuel src snk rest total).2.2 d []) ∧
+    (∀ e, (sts_n fuel src snk rest total).1 = .err e →
+      ∃ d lost, lost.length ≤ 1 ∧ Moved src snk (sts_n fuel src snk rest total).2.1 (sts_n fuel src snk rest total).2.2 d lost) ∧
+    (rest ≤ fuel → (sts_n fuel src snk rest total).1 ≠ .diverge) := by
+  intro fuel
+  induction fuel with
+  | zero =>
+    intro src snk rest total _ _
+    cases rest with
+    | zero => exact ⟨fun m hm => ⟨by simpa [sts_n] using hm.symm, [], rfl, Moved.refl src snk⟩, by simp [sts_n], by simp [sts_n]⟩
+    | succ r => exact ⟨by simp [sts_n], by simp [sts_n], by omega⟩
+  | succ fuel ih =>
+    intro src snk rest total hs hk
+    cases rest with
+    | zero => exact ⟨fun m hm => ⟨by simpa [sts_n] using hm.symm, [], rfl, Moved.refl src snk⟩, by simp [sts_n], by simp [sts_n]⟩
+    | succ r =>
+      obtain ⟨c1, c2, c3⟩ := sts_cbc_spec src snk hs hk
+      simp only [sts_n]
+      rcases hc : sts_cbc src snk with ⟨rc, src1, snk1⟩
+      rw [hc] at c1 c2 c3
+      simp only at c1 c2 c3
+      cases rc with
+      | diverge => exact absurd rfl c3
+      | err e =>
+        obtain ⟨lost, hl, hm⟩ := c2 e rfl
+        exact ⟨by simp, fun e' _ => ⟨[], lost, hl, hm⟩, by simp⟩
+      | ok k =>
+        obtain ⟨hk1, o, hm⟩ := c1 k rfl
+        subst hk1
+        simp only [Nat.add_sub_cancel]
+        obtain ⟨i1, i2, i3⟩ := ih src1 snk1 r total (nz_src hm hs) (nz_snk hm hk)
+        refine ⟨?_, ?_, fun h => i3 (by omega)⟩
+        · intro m hmm
+          obtain ⟨f1, d, f2, f3⟩ := i1 m hmm
+          exact ⟨f1, o :: d, by simp [f2], by simpa using Moved.trans hm f3⟩
+        · intro e he
+          obtain ⟨d, lost, f1, f2⟩ := i2 e he
+          exact ⟨o :: d, lost, f1, by simpa using Moved.trans hm f2⟩
+
+/-- `sts_drain_cbc` and `sts_drain` stop with an error (end of data being one); what reached the
+    sink is a prefix of the stream and at most one octet is lost -/
+theorem sts_drain_spec : ∀ (fuel : Nat) (src : Src) (snk : Snk),
+    NoZero src.script → NoZero snk.script →
+    (∀ m, (sts_drain_cbc fuel src snk).1 ≠ .ok m) ∧ (∀ m, (sts_drain fuel src snk).1 ≠ .ok m) ∧
+    (∃ d lost, lost.length ≤ 1 ∧ Moved src snk (sts_drain_cbc fuel src snk).2.1 (sts_drain_cbc fuel src snk).2.2 d lost) ∧
+    (∃ d lost, lost.length ≤ 1 ∧ Moved src snk (sts_drain fuel src snk).2.1 (sts_drain fuel src snk).2.2 d lost) := by
+  intro fuel
+  induction fuel with
+  | zero => intro src snk _ _; exact ⟨by simp [sts_drain_cbc], by simp [sts_drain], ⟨[], [], by simp, Moved.refl src snk⟩, ⟨[], [], by simp, Moved.refl src snk⟩⟩
+  | succ fuel ih =>
+    intro src snk hs hk
+    obtain ⟨c1, c2, c3⟩ := sts_cbc_spec src snk hs hk
+    simp only [sts_drain_cbc, sts_drain]
+    rcases hc : sts_cbc src snk with ⟨rc, src1, snk1⟩
+    rw [hc] at c1 c2 c3
+    simp only at c1 c2 c3
+    cases rc with
+    | diverge => exact absurd rfl c3
+    | err e =>
+      obtain ⟨lost, hl, hm⟩ := c2 e rfl
+      refine ⟨by simp, ?_, ⟨[], lost, hl, hm⟩, ⟨[], lost, hl, hm⟩⟩
+      intro m; by_cases he : e = .enomem <;> simp [he]
+    | ok k =>
+      obtain ⟨_, o, hm⟩ := c1 k rfl
+      obtain ⟨i1, i2, ⟨d, lost, f1, f2⟩, ⟨d', lost', g1, g2⟩⟩ := ih src1 snk1 (nz_src hm hs) (nz_snk hm hk)
+      exact ⟨i1, i2, ⟨o :: d, lost, f1, by simpa using Moved.trans hm f2⟩,
+        ⟨o :: d', lost', g1, by simpa using Moved.trans hm g2⟩⟩
+
+/-- well-behaved drivers: draining moves everything up to the source's end -/
+theorem sts_drain_complete : ∀ (stream : List Octet) (got : List Octet) (sk kk : Kind) (c1 c2 : Nat),
+    (sts_drain_cbc (stream.length + 1) { kind := sk, stream := stream, script := [], calls := c1 }
+        { kind := kk, got := got, script := [], calls := c2 }).2.2.got = got ++ stream ∧
+    (sts_drain (stream.length + 1) { kind := sk, stream := stream, script := [], calls := c1 }
+        { kind := kk, got := got, script := [], calls := c2 }).2.2.got = got ++ stream := by
+  have one : ∀ (o : Octet) (os got : List Octet) (sk kk : Kind) (c1 c2 : Nat),
+      sts_cbc { kind := sk, stream := o :: os, script := [], calls := c1 } { kind := kk, got := got, script := [], calls := c2 }
+        = (.ok 1, { kind := sk, stream := os, script := [], calls := c1 + 1 },
+            { kind := kk, got := got ++ [o], script := [], calls := c2 + 1 }) := by
+    intro o os got sk kk c1 c2
+    simp [sts_cbc, source_get_octet, sink_put_octet, Src.call, Snk.call]
+  have fin : ∀ (got : List Octet) (sk kk : Kind) (c1 c2 : Nat),
+      (sts_cbc { kind := sk, stream := [], script := [], calls := c1 } { kind := kk, got := got, script := [], calls := c2 }).1
+        = .err .enodata ∧
+      (sts_cbc { kind := sk, stream := [], script := [], calls := c1 } { kind := kk, got := got, script := [], calls := c2 }).2.2.got
+        = got := by
+    intro got sk kk c1 c2
+    simp [sts_cbc, source_get_octet, Src.call]
+  intro stream
+  induction stream with
+  | nil =>
+    intro got sk kk c1 c2
+    obtain ⟨f1, f2⟩ := fin got sk kk c1 c2
+    simp only [List.length_nil, Nat.zero_add, sts_drain_cbc, sts_drain, List.append_nil]
+    rcases hc : sts_cbc { kind := sk, stream := [], script := [], calls := c1 } { kind := kk, got := got, script := [], calls := c2 }
+      with ⟨rc, src1, snk1⟩
+    rw [hc] at f1 f2
+    simp only at f1 f2
+    subst f1
+    simp [f2]
+  | cons o os ih =>
+    intro got sk kk c1 c2
+    have := ih (got ++ [o]) sk kk (c1 + 1) (c2 + 1)
+    simp only [List.length_cons]
+    rw [sts_drain_cbc, sts_drain, one]
+    simpa [List.append_assoc] using this
+
+/-! #### plumbing through an auxiliary buffer -/
+
+/-- one round (`sts_some_aux` / `sts_atmost_aux`): at most `region` octets are moved, all of them reach
+    the sink on success; on failure the sink has received a prefix of what the source delivered; the
+    auxiliary buffer is written only inside [offset, offset + region) -/
+theorem sts_some_aux_spec (fuel : Nat) (src : Src) (snk : Snk) (a : Aux) (region : Nat) :
+    let r := sts_some_aux fuel src snk a region
+    (∀ m, r.1 = .ok m → m ≤ region ∧ ∃ d, d.length = m ∧ Moved src snk r.2.1 r.2.2.1 d []) ∧
+    (∃ d lost, Moved src snk r.2.1 r.2.2.1 d lost) ∧
+    (∃ w, w.length ≤ region ∧ (r.2.2.2 = a ∨ r.2.2.2 = a.write w)) := by
+  simp only [sts_some_aux]
+  by_cases hz : region = 0
+  · simp only [hz, ↓reduceIte]
+    exact ⟨by simp, ⟨[], [], Moved.refl src snk⟩, ⟨[], by simp, by simp⟩⟩
+  · simp only [hz, ↓reduceIte, source_get_chunk_atmost]
+    obtain ⟨hadv, hlen, hok, _⟩ := once_get_spec fuel src region
+    rcases hc : once_source_get_chunk fuel src region with ⟨rc, d0, src1⟩
+    rw [hc] at hadv hlen hok
+    simp only at hadv hlen hok ⊢
+    cases rc with
+    | diverge => exact ⟨by simp, ⟨[], d0, ⟨by simpa using hadv, SnkAdv.refl snk⟩⟩, ⟨[], by simp, Or.inl rfl⟩⟩
+    | err e => exact ⟨by simp, ⟨[], d0, ⟨by simpa using hadv, SnkAdv.refl snk⟩⟩, ⟨[], by simp, Or.inl rfl⟩⟩
+    | ok k =>
+      have hk := hok k rfl
+      cases k with
+      | zero =>
+        have : d0 = [] := by simpa using hk.symm
+        subst this
+        exact ⟨fun m hm => ⟨by simp only [R.ok.injEq] at hm; omega, [], by simpa using hm, ⟨by simpa using hadv, SnkAdv.refl snk⟩⟩,
+          ⟨[], [], ⟨by simpa using hadv, SnkAdv.refl snk⟩⟩, ⟨[], by simp, Or.inl rfl⟩⟩
+      | succ k' =>
+        simp only
+        obtain ⟨p1, p2, p3⟩ := put_chunk_exact fuel snk d0
+        rcases hp : sink_put_chunk fuel snk d0 with ⟨rp, snk1⟩
+        rw [hp] at p1 p2 p3
+        simp only at p1 p2 p3 ⊢
+        -- script suffix for the sink
+        have hsk : snk1.script <:+ snk.script ∧ snk1.kind = snk.kind := by
+          have : snk1 = (sink_put_chunk fuel snk d0).2 := by rw [hp]
+          rw [this]
+          simp only [sink_put_chunk]
+          split
+          · exact ⟨List.suffix_refl _, rfl⟩
+          · obtain ⟨_, _, h, _⟩ := putLoop_spec fuel snk d0 d0.length
+            exact ⟨h.2.1, h.2.2⟩
+        obtain ⟨j, hj⟩ := p3
+        refine ⟨?_, ⟨d0.take j, d0.drop j, ⟨by simpa using hadv, ⟨hj, hsk.1, hsk.2⟩⟩⟩, ⟨d0, hlen, Or.inr rfl⟩⟩
+        intro m hm
+        obtain ⟨f1, f2⟩ := p1 m hm
+        exact ⟨by omega, d0, f1.symm, ⟨by simpa using hadv, ⟨f2, hsk.1, hsk.2⟩⟩⟩
+
+/-- `sts_n_aux`: success = exactly the requested count moved, nothing lost; failure = a prefix moved -/
+theorem sts_n_aux_spec : ∀ (fuel : Nat) (src : Src) (snk : Snk) (a : Aux) (rest total : Nat),
+    (∀ m, (sts_n_aux fuel src snk a rest total).1 = .ok m → m = total ∧
+      ∃ d, d.length = rest ∧
+        Moved src snk (sts_n_aux fuel src snk a rest total).2.1 (sts_n_aux fuel src snk a rest total).2.2.1 d []) ∧
+    (∀ e, (sts_n_aux fuel src snk a rest total).1 = .err e →
+      ∃ d lost, Moved src snk (sts_n_aux fuel src snk a rest total).2.1 (sts_n_aux fuel src snk a rest total).2.2.1 d lost) := by
+  intro fuel
+  induction fuel with
+  | zero =>
+    intro src snk a rest total
+    cases rest with
+    | zero => exact ⟨fun m hm => ⟨by simpa [sts_n_aux] using hm.symm, [], rfl, Moved.refl src snk⟩, by simp [sts_n_aux]⟩
+    | succ r => exact ⟨by simp [sts_n_aux], by simp [sts_n_aux]⟩
+  | succ fuel ih =>
+    intro src snk a rest total
+    cases rest with
+    | zero => exact ⟨fun m hm => ⟨by simpa [sts_n_aux] using hm.symm, [], rfl, Moved.refl src snk⟩, by simp [sts_n_aux]⟩
+    | succ r =>
+      obtain ⟨c1, c2, _⟩ := sts_some_aux_spec (fuel + 1) src snk a.rewind (min (a.rewind.used - a.rewind.offset) (r + 1))
+      simp only [sts_n_aux, sts_atmost_aux]
+      rcases hc : sts_some_aux (fuel + 1) src snk a.rewind (min (a.rewind.used - a.rewind.offset) (r + 1))
+        with ⟨rc, src1, snk1, a1⟩
+      rw [hc] at c1 c2
+      simp only at c1 c2
+      cases rc with
+      | diverge => exact ⟨by simp, by simp⟩
+      | err e =>
+        obtain ⟨d, lost, hm⟩ := c2
+        exact ⟨by simp, fun e' _ => ⟨d, lost, hm⟩⟩
+      | ok k =>
+        obtain ⟨hk, d0, hd0, hm⟩ := c1 k rfl
+        obtain ⟨i1, i2⟩ := ih src1 snk1 a1 (r + 1 - k) total
+        refine ⟨?_, ?_⟩
+        · intro m hmm
+          obtain ⟨f1, d, f2, f3⟩ := i1 m hmm
+          refine ⟨f1, d0 ++ d, ?_, Moved.trans hm f3⟩
+          simp only [List.length_append]; omega
+        · intro e he
+          obtain ⟨d, lost, f2⟩ := i2 e he
+          exact ⟨d0 ++ d, lost, Moved.trans hm f2⟩
+
+/-- `sts_drain_aux` never reports success; when it stops the sink has received a prefix of the stream -/
+theorem sts_drain_aux_spec : ∀ (fuel : Nat) (src : Src) (snk : Snk) (a : Aux) (size : Nat),
+    (∀ m, (sts_drain_aux fuel src snk a size).1 ≠ .ok m) ∧
+    (∃ d lost, Moved src snk (sts_drain_aux fuel src snk a size).2.1 (sts_drain_aux fuel src snk a size).2.2.1 d lost) := by
+  intro fuel
+  induction fuel with
+  | zero => intro src snk a size; exact ⟨by simp [sts_drain_aux], ⟨[], [], Moved.refl src snk⟩⟩
+  | succ fuel ih =>
+    intro src snk a size
+    obtain ⟨c1, c2, _⟩ := sts_some_aux_spec (fuel + 1) src snk a.rewind (min (a.rewind.used - a.rewind.offset) size)
+    simp only [sts_drain_aux, sts_atmost_aux]
+    rcases hc : sts_some_aux (fuel + 1) src snk a.rewind (min (a.rewind.used - a.rewind.offset) size)
+      with ⟨rc, src1, snk1, a1⟩
+    rw [hc] at c1 c2
+    simp only at c1 c2
+    cases rc with
+    | diverge => exact ⟨by simp, c2⟩
+    | err e => exact ⟨by simp, c2⟩
+    | ok k =>
+      obtain ⟨_, d0, _, hm⟩ := c1 k rfl
+      obtain ⟨i1, ⟨d, lost, f2⟩⟩ := ih src1 snk1 a1 size
+      exact ⟨i1, ⟨d0 ++ d, lost, Moved.trans hm f2⟩⟩
+
+/-- writing `w` at the read mark changes nothing outside [offset, offset + |w|) -/
+theorem aux_write_frame (a : Aux) (w : List Octet) (h : a.offset + w.length ≤ a.mem.length) (i : Nat)
+    (hi : i < a.offset ∨ a.offset + w.length ≤ i) : (a.write w).mem[i]? = a.mem[i]? := by
+  simp only [Aux.write]
+  rcases hi with hi | hi
+  · rw [List.getElem?_append_left (by simp; omega), List.getElem?_take_of_lt hi]
+  · rw [List.getElem?_append_right (by simp; omega), List.getElem?_append_right (by simp; omega)]
+    simp only [List.length_take, List.getElem?_drop]
+    congr 1
+    have : min a.offset a.mem.length = a.offset := by omega
+    omega
+
 /-! #### non-vacuity -/
 
 example : (source_get_chunk 20 { kind := .chunk, stream := [1#8, 2#8, 3#8, 4#8], script := [.xfer 1, .zero, .eintr, .xfer 2] } 4).1
